@@ -195,6 +195,12 @@ func VerifC15Outfile(appendMode int) {
 		c15FS[c15Out] = &c15File{data: []byte(prior)}
 		c15FS[c15Out+".query"] = &c15File{data: []byte("old query")}
 	}
+	if verifrt.Bool("stale-tmp-files") {
+		// an earlier run was killed after an interim write: its temporary files are still there
+		c15FS[c15Out+".tmp"] = &c15File{data: []byte("a,count(b)\nstale-row-of-an-earlier-longer-result,111\nanother-stale-row,222\n")}
+		c15FS[c15Out+".query.tmp"] = &c15File{data: []byte("select something much longer than the current query text from an earlier run of another query")}
+		verifrt.Reach("stale-tmp")
+	}
 	final := verifrt.Bool("final")
 	c15Ops = 0
 	c15CrashAt = verifrt.Choose("crash-at", 24) // 0 = never; the k-th FS operation is the last
@@ -218,6 +224,17 @@ func VerifC15Outfile(appendMode int) {
 		}
 		if !crashed && !final {
 			verifrt.Assert(exists == (prior != "") && (!exists || out == prior), "an interim result touched the outfile")
+			// the interim result is followed by the final one of the same run, with fewer rows
+			c15CrashAt = 0
+			g2 := NewGroupSet()
+			s2 := g2.GetSet("z" + v)
+			s2.SValues["a"] = "z" + v
+			s2.FValues["count(b)"] = 1
+			s2.Samples = 1
+			c15Run(g2, q, true)
+			out2, ok2 := c15Content(c15Out)
+			verifrt.Assert(ok2 && out2 == header+"z"+v+",1\n", "the final result after an interim one is not exactly the final rows")
+			verifrt.Reach("interim-then-final")
 		}
 		return
 	}
